@@ -1,10 +1,261 @@
-/- C10 — property theorems (work in progress). -/
-import Kap.Spec.C10
+/-
+C10 — property theorems (every `theorem` in this module is a proof obligation; `bin/check C10` audits each one's axioms).
+Helper lemmas live in Kap/Proofs/C10*.lean.
+
+Statement (properties.jsonl): the output of where, eval, default, delete, shift, sample, derivative, changeDetect,
+stateCount, stateDuration, flatten, combine and groupBy equals the documented function of the input applied per point
+and per group, for stream and batch edges alike; a node never alters data another branch can observe.
+
+What is proved here is about the MODEL (Kap/Model/C10.lean, transcribed from the Go code); `bin/check C10` ties the model
+to the code on every run and evaluates the same documented functions (Kap/Spec/C10.lean) on what the real nodes emitted.
+The aliasing half of the statement has no counterpart over immutable values: it is checked dynamically only.
+
+Several of the per-point theorems are short because model and documented function nearly coincide (where, shift); the
+substance is in the history statements of the stateful nodes and in `grouped_nodes_are_per_group`.
+-/
+import Kap.Proofs.C10Batch
+import Kap.Proofs.C10Flat
+set_option linter.unusedSimpArgs false
 namespace Kap.Props.C10
 open Kap.C10
+
+/-! ### Pipelines -/
 
 /-- A chain is the composition of its nodes. -/
 theorem pipeline_compositional (a b : List Node) (e : Edge) : runChain (a ++ b) e = runChain b (runChain a e) := by
   simp [runChain, List.foldl_append]
+
+/-- A fork hands the SAME value to every child: the edges below a node are the edges each child produces from the node's
+output, independently of its siblings. -/
+theorem fork_children_independent (n : Node) (c : Pipe) (cs : List Pipe) (e : Edge) :
+    (Pipe.node n (c :: cs)).outputs e = n.run e :: (c.outputs (n.run e) ++ ((Pipe.node n cs).outputs e).tail) := by
+  simp [Pipe.outputs, Pipe.outputs.outputsList]
+
+/-! ### Groups -/
+
+/-- **Every grouped node works per group**: whatever the per-group receiver (`step`) and the way a group is created
+(`init`), running the group table of `groupedConsumer` over ANY interleaving of groups gives each point exactly the
+state that the earlier points of its own group produce. (Instantiated below for sample, derivative, changeDetect,
+stateCount, stateDuration; flatten and combine run on the same table.) -/
+theorem grouped_nodes_are_per_group {σ : Type} (init : Point → σ) (step : σ → Point → σ × List Point) (ps : List Point) :
+    runGrouped init step [] ps = perGroup (fun h p => (step ((foldG init step h).getD (init p)) p).2) [] ps :=
+  runGrouped_eq_perGroup init step ps
+
+/-! ### where, default, delete, shift -/
+
+/-- where keeps exactly the points whose predicate evaluates to true (errors drop), unchanged and in order. -/
+theorem where_spec (e : Expr) (ps : List Point) : whereStream e ps = specWhere e ps := by
+  unfold whereStream specWhere wherePass
+  congr 1; funext p
+  by_cases h : evalPred e p.fields p.tags = some true <;> simp [h]
+
+/-- default: every field/tag of the output is the input's, else the configured default (tags: absent or empty) —
+for a configuration that is a map (distinct keys). -/
+theorem default_spec (cf : Fields) (ct : Tags) (hf : (akeys cf).Nodup) (ht : (akeys ct).Nodup) (p : Point) :
+    (defaultPoint cf ct p).equivB (specDefault cf ct p) = true := by
+  have h1 : mapEqB (defaultTags ct p.tags) (tabulate (akeys p.tags ++ akeys ct) (specDefaultTag ct p.tags)) = true := by
+    apply mapEqB_of_forall
+    intro k
+    rw [defaultTags_lookup ct p.tags ht, aget_tabulate]
+    by_cases hk : k ∈ akeys p.tags ++ akeys ct
+    · simp [hk]
+    · simp only [List.mem_append, not_or] at hk
+      simp [hk, specDefaultTag, aget_none_of_not_mem _ _ hk.1, aget_none_of_not_mem _ _ hk.2]
+  have h2 : mapEqB (defaultFields cf p.fields) (tabulate (akeys p.fields ++ akeys cf) (specDefaultField cf p.fields)) = true := by
+    apply mapEqB_of_forall
+    intro k
+    rw [defaultFields_lookup cf p.fields hf, aget_tabulate]
+    by_cases hk : k ∈ akeys p.fields ++ akeys cf
+    · simp [hk]
+    · simp only [List.mem_append, not_or] at hk
+      simp [hk, specDefaultField, aget_none_of_not_mem _ _ hk.1, aget_none_of_not_mem _ _ hk.2]
+  simp [Point.equivB, defaultPoint, specDefault, specDefaultFT, h1, h2]
+
+example : (akeys ([("v", Val.int 7)] : Fields)).Nodup ∧ (akeys ([("h", "x")] : Tags)).Nodup ∧
+    aget (defaultPoint [("v", .int 7)] [("h", "x")] { name := "m", tags := [("h", "")], fields := [("w", .int 1)], time := 0 }).fields "v" = some (.int 7) ∧
+    aget (defaultPoint [("v", .int 7)] [("h", "x")] { name := "m", tags := [("h", "")], fields := [("w", .int 1)], time := 0 }).tags "h" = some "x" := by
+  decide
+
+/-- delete: listed fields/tags are gone, everything else is untouched, deleted tags leave the dimensions. -/
+theorem delete_spec (df dt : List String) (p : Point) : (deletePoint df dt p).equivB (specDelete df dt p) = true := by
+  have h1 : mapEqB (deleteKeys dt p.tags) (tabulate (akeys p.tags) (specDeleteAt dt p.tags)) = true := by
+    apply mapEqB_of_forall
+    intro k
+    rw [deleteKeys_lookup, aget_tabulate]
+    by_cases hk : k ∈ akeys p.tags
+    · simp [hk]
+    · simp [hk, specDeleteAt, aget_none_of_not_mem _ _ hk]
+  have h2 : mapEqB (deleteKeys df p.fields) (tabulate (akeys p.fields) (specDeleteAt df p.fields)) = true := by
+    apply mapEqB_of_forall
+    intro k
+    rw [deleteKeys_lookup, aget_tabulate]
+    by_cases hk : k ∈ akeys p.fields
+    · simp [hk]
+    · simp [hk, specDeleteAt, aget_none_of_not_mem _ _ hk]
+  have key : deletePoint df dt p =
+      { name := p.name, tags := deleteKeys dt p.tags, fields := deleteKeys df p.fields, time := p.time,
+        dims := p.dims.filter (fun d => !dt.contains d), byName := p.byName } := by
+    unfold deletePoint
+    by_cases hany : p.dims.any (fun d => dt.contains d) = true
+    · rw [if_pos hany]
+    · have hf : p.dims.filter (fun d => !dt.contains d) = p.dims :=
+        filter_eq_self_of_not_any p.dims (fun d => dt.contains d) (by simpa using hany)
+      rw [if_neg hany, hf]
+  rw [key]
+  simp [Point.equivB, specDelete, h1, h2]
+
+/-- shift moves the time and nothing else. -/
+theorem shift_spec (d : Int) (p : Point) : shiftPoint d p = specShift d p := rfl
+
+/-! ### The stateful nodes: history statements, for every stream (any number of groups, any interleaving) -/
+
+/-- sample(N) keeps a point iff the number of EARLIER points of its group is a multiple of N (sample(d): iff its time is
+a multiple of d). -/
+theorem sample_every_nth (n dur : Int) (ps : List Point) : sampleStream n dur ps = specSample n dur ps :=
+  sampleStream_eq n dur ps
+
+/-- stateCount = -1 when false, else the length of the current run of true within the group; points whose predicate
+fails to evaluate are dropped and do not interrupt the run. -/
+theorem stateCount_is_run_length (e : Expr) (as : String) (ps : List Point) : countStream e as ps = specStateCount e as ps :=
+  countStream_eq e as ps
+
+/-- stateDuration = -1 when false, else the time since the first point of the current run, in units. -/
+theorem stateDuration_is_time_since_run_start (e : Expr) (as : String) (unit : Int) (ps : List Point) :
+    durStream e as unit ps = specStateDuration e as unit ps :=
+  durStream_eq e as unit ps
+
+/-- derivative pairs each point with the latest earlier point of its group whose field is numeric … -/
+theorem derivative_of_consecutive_stored (c : DerivCfg) (ps : List Point) : derivStream c ps = specDerivative c ps :=
+  derivStream_eq c ps
+
+/-- … because a point is stored as "previous" exactly when its field is numeric — also when nothing is emitted for it
+(no previous, zero elapsed, negative difference under nonNegative). -/
+theorem derivative_skips_but_stores_on_zero_elapsed (c : DerivCfg) (prev : Option (Fields × Int)) (fields : Fields) (t : Int) :
+    (derivative c prev fields t).2 = isNumeric (aget fields c.field) :=
+  derivative_store c prev fields t
+
+/-- changeDetect emits a point iff a listed field it carries differs from the latest EMITTED point of its group. -/
+theorem changeDetect_emits_on_change_from_last_emitted (fs : List String) (ps : List Point) :
+    changeStream fs ps = specChangeDetect fs ps :=
+  changeStream_eq fs ps
+
+/-! ### Batch edges = the stream function on the points of each batch, one group, fresh state -/
+
+theorem batch_stream_agree_sample (n dur : Int) (b : Batch) :
+    (sampleBatch n dur b).points = (sampleStream n dur (b.points.map (toPt b.name))).map BPoint.ofPoint := by
+  simp only [sampleBatch, sampleStream, runGrouped_batch]
+  exact sample_batch_single n dur b.name b.points 0
+
+theorem batch_stream_agree_derivative (c : DerivCfg) (b : Batch) :
+    (derivBatch c b).points = (derivStream c (b.points.map (toPt b.name))).map BPoint.ofPoint := by
+  simp only [derivBatch, derivStream, runGrouped_batch]
+  exact deriv_batch_single c b.name b.points none
+
+theorem batch_stream_agree_changeDetect (fs : List String) (b : Batch) :
+    (changeBatch fs b).points = (changeStream fs (b.points.map (toPt b.name))).map BPoint.ofPoint := by
+  simp only [changeBatch, changeStream, runGrouped_batch]
+  exact change_batch_single fs b.name b.points none
+
+theorem batch_stream_agree_stateCount (e : Expr) (as : String) (b : Batch) :
+    (countBatch e as b).points = (countStream e as (b.points.map (toPt b.name))).map BPoint.ofPoint := by
+  simp only [countBatch, countStream, runGrouped_batch]
+  exact count_batch_single e as b.name b.points 0
+
+theorem batch_stream_agree_stateDuration (e : Expr) (as : String) (unit : Int) (b : Batch) :
+    (durBatch e as unit b).points = (durStream e as unit (b.points.map (toPt b.name))).map BPoint.ofPoint := by
+  simp only [durBatch, durStream, runGrouped_batch]
+  exact dur_batch_single e as unit b.name b.points none
+
+/-- where / eval / default / delete / shift act on the points of a batch one by one, like on a stream. -/
+theorem batch_stream_agree_pointwise (e : Expr) (c : EvalCfg) (df dt : List String) (d : Int) (b : Batch) :
+    (whereBatch e b).points = ((whereStream e (b.points.map (toPt b.name))).map BPoint.ofPoint) ∧
+    (evalBatch c b).points = ((evalStream c (b.points.map (toPt b.name))).map BPoint.ofPoint) ∧
+    (deleteBatch df dt b).points = ((b.points.map (toPt b.name)).map (deletePoint df dt)).map BPoint.ofPoint ∧
+    (shiftBatch d b).points = ((b.points.map (toPt b.name)).map (shiftPoint d)).map BPoint.ofPoint := by
+  refine ⟨?_, ?_, ?_, ?_⟩
+  · simp only [whereBatch, whereStream, List.filter_map, List.map_map]
+    have : (BPoint.ofPoint ∘ toPt b.name) = id := by funext p; simp [ofPoint_toPt]
+    simp [this, Function.comp_def, toPt]
+  · simp only [evalBatch, evalStream]
+    induction b.points with
+    | nil => simp
+    | cons p r ih =>
+      simp only [List.filterMap_cons, List.map_cons, evalBPoint, evalPoint, toPt]
+      cases evalFT c p.fields p.tags <;> simp_all [BPoint.ofPoint, toPt, evalBPoint, evalPoint]
+  · simp [deleteBatch, deleteBPoint, deletePoint, toPt, BPoint.ofPoint, List.map_map, Function.comp_def]
+  · simp [shiftBatch, shiftPoint, toPt, BPoint.ofPoint, List.map_map, Function.comp_def]
+
+/-! ### flatten -/
+
+/-- The fields of a closed bucket are exactly the documented ones: every point that carries all `on` tags contributes
+`tagvalues ⋅ delimiter ⋅ fieldname` (later points win on equal names), a point lacking one of the tags contributes
+nothing — and leaves nothing behind (the code as repaired by add6dbc). -/
+theorem flatten_bucket_fields (c : FlattenCfg) (bucket : List BPoint) : flattenFields c bucket = specFlatFields c bucket :=
+  flattenFields_eq c bucket
+
+/-- Counterexample (the defect repaired by add6dbc): in snapshot ef0888e a point that has the first `on` tag but not the
+second leaves its tag value in the shared prefix buffer; the next point's field comes out as `ab.80.v` instead of
+`b.80.v` (replayed on the real code by corpus/C10/flatten-missing-later-tag.ops). -/
+theorem flatten_old_leaks_prefix :
+    ∃ (c : FlattenCfg) (bucket : List BPoint), flattenFieldsOld c bucket ≠ specFlatFields c bucket ∧
+      flattenFieldsOld c bucket = [("ab.80.v", .int 2)] ∧ specFlatFields c bucket = [("b.80.v", .int 2)] :=
+  ⟨{ on := ["h", "p"], delim := ".", tol := 0, drop := false },
+   [{ tags := [("h", "a")], fields := [("v", .int 1)], time := 0 }, { tags := [("h", "b"), ("p", "80")], fields := [("v", .int 2)], time := 0 }],
+   by decide⟩
+
+/-! ### combine -/
+
+/-- Counterexample (the defect repaired by d6d5125): snapshot ef0888e panicked on the first point of a group whenever the
+buffer had no capacity and the point did not fall into the initial bucket — on a stream: first point not aligned to the
+tolerance (b.time = first.Time(), unrounded); on a batch: always (b.time = zero) when the size hint was 0. -/
+theorem combine_old_panics :
+    combAddOldPanics 1000000000 (some 1000400000000) 0 1000400000000 = true ∧ (∀ tol t, combAddOldPanics tol none 0 t = true) := by
+  refine ⟨by decide, ?_⟩
+  intro tol t
+  simp [combAddOldPanics]
+
+/-- Recorded finding `combine-greedy-assignment`: with lambdas (TRUE, "h" == 'a') the pair {h=a, h=b} admits the
+assignment (b ↦ TRUE, a ↦ "h"=='a') but the greedy walk gives `a` to the first lambda and finds nobody for the second. -/
+theorem combine_greedy_misses_a_combination :
+    ∃ (c : CombineCfg) (bucket : List BPoint), combineGreedyMisses c bucket = true ∧
+      combineBucket c "m" [] false bucket = some [] :=
+  ⟨{ exprs := [.lit (.bool true), .bin .eq (.ref "h") (.lit (.str "a"))], names := ["A", "B"], delim := ".", tol := 0, max := 1000000 },
+   [{ tags := [("h", "a")], fields := [("v", .int 1)], time := 0 }, { tags := [("h", "b")], fields := [("v", .int 2)], time := 0 }],
+   by decide⟩
+
+/-! ### eval -/
+
+/-- The full statement for eval (NOT proved): whenever no result is shadowed, the threaded scope of `EvalNode.eval`
+computes the documented output. What is missing: the invariant relating the threaded scope to "fields/tags first, else the
+latest earlier result" across the expression loop. The statement is checked on every run on the implementation's output
+(clause `eval-spec`) and the model is tied to the code by correspondence. -/
+def eval_spec_stmt : Prop :=
+  ∀ (c : EvalCfg) (fields : Fields) (tags : Tags), evalShadowed c fields tags = false →
+    match evalFT c fields tags, specEvalFT c fields tags with
+    | some (f, t), some (f', t') => mapEqB f f' = true ∧ mapEqB t t' = true
+    | none, none => True
+    | _, _ => False
+
+/-- Recorded finding `eval-result-shadowed`: eval(lambda: "v" + 1, lambda: "v" * 2).as('v','y').keep() on v=1 — the second
+expression re-binds "v" to the field, the emitted v is the original 1, the result 2 is lost. -/
+theorem eval_shadowed_result_is_lost :
+    ∃ (c : EvalCfg) (fields : Fields), evalShadowed c fields [] = true ∧
+      (evalFT c fields []).map (fun r => aget r.1 "v") = some (some (.int 1)) ∧
+      (specEvalFT c fields []).map (fun r => aget r.1 "v") = some (some (.int 2)) :=
+  ⟨{ exprs := [.bin .add (.ref "v") (.lit (.int 1)), .bin .mul (.ref "v") (.lit (.int 2))], as := ["v", "y"], keep := true },
+   [("v", .int 1)], by decide⟩
+
+/-! ### statements kept visible but not proved -/
+
+/-- flatten on a stream whose (rounded) times do not decrease within a group: a point whose rounded time differs from the
+open bucket of its group closes that bucket. Not proved (the closed form of `FlatSt` over the group history is missing);
+checked on every run on the implementation's output (clause `flatten-spec`). -/
+def flatten_stream_stmt : Prop :=
+  ∀ (c : FlattenCfg) (ps : List Point), groupTimesOrdered c.tol ps = true →
+    listEquivB Point.equivB (flattenStream c ps) (specFlatten c ps) = true
+
+/-- groupBy: the dimensions are the sorted non-excluded tags (sort∘filter = filter∘sort is not proved). -/
+def groupBy_dims_stmt : Prop :=
+  ∀ (c : GroupByCfg) (tags : Tags), gbTagNames c tags = specGroupByDims c tags
 
 end Kap.Props.C10
